@@ -6,7 +6,10 @@ use std::pin::Pin;
 use std::sync::atomic::{AtomicUsize, Ordering};
 use std::sync::Arc;
 use std::task::{Context, Poll};
+#[cfg(not(feature = "verif-hooks"))]
 use std::time::Instant;
+#[cfg(feature = "verif-hooks")]
+use tokio::time::Instant;
 use tokio::sync::Semaphore;
 use tower_service::Service;
 
